@@ -394,7 +394,7 @@ pub fn spec() -> CheckSpec {
         id: "C06",
         level: "fault_enumeration",
         build: "serial (+ overflow-checking build for two arms)",
-        rule: "bases = honest proofs of the protocol sim across every (field, hasher) pair, the three extensions and option / shape flavours (aux segment, wide trace, grinding), 0.5-4 KiB each. Enumerated completely per base: every length / count / size / tag field x all 256 values (one-byte fields) or {0, 1, 2, max/2, max/2+1, max-1, max, true+-1} (wider fields); 12 kinds x 16 variants of self-consistent structural edits (a surplus digest appended to a node vector of an opening, the last digest dropped from a node vector or the vector emptied, proof-of-work nonce moved by multiples of the field modulus, trace metadata of another length, OOD frame size with matching states, Lagrange frame supplied, one opened row more / fewer in every query set with num_unique_queries adjusted, one FRI query more / fewer, field modulus of another length, one commitment more / fewer, GKR proof of announced length, remainder of another size); every truncation offset (torn write); every single-bit flip (quick: the first 12 bases, thorough: all). Sampled: byte overwrites, trailing garbage, removed / duplicated / swapped components with and without fixing counters and length prefixes, blob growth / shrinkage, splices of two proofs, random fields, random strings, pairs of faults; context / options / trace-info fields of freshly generated proofs (AIR shape varies per run) set to neighbouring and boundary values; delivery by Proof::from_bytes or by Proof::read_from over ReadAdapter over a hostile-chunking simulated source; verification with matching or perturbed public inputs under three acceptance policies. options-cross (enumerated completely, also in the overflow-checking build): one honest proof per point of the grid trace length {8,16,32} x blowup {2,4,8} x folding {2,4,8,16} x remainder max degree {0,1,3,7} that has a well-formed FRI schedule, delivered with its blowup / folding / remainder option bytes set to every other valid combination (5 x 4 x 7), so that the verifier follows a layer schedule the proof was not made for. Each case runs in an isolated worker with an allocation meter. Non-trivial = a fault fired (all runs); distinct = distinct event-log digests.".into(),
+        rule: "bases = honest proofs of the protocol sim across every (field, hasher) pair, the three extensions and option / shape flavours (aux segment, wide trace, grinding), 0.5-4 KiB each. Enumerated completely per base: every length / count / size / tag field x all 256 values (one-byte fields) or {0, 1, 2, max/2, max/2+1, max-1, max, true+-1} (wider fields); 13 kinds x 16 variants of self-consistent structural edits (one limb of an element replaced by its alias modulo the field modulus, a surplus digest appended to a node vector of an opening, the last digest dropped from a node vector or the vector emptied, proof-of-work nonce moved by multiples of the field modulus, trace metadata of another length, OOD frame size with matching states, Lagrange frame supplied, one opened row more / fewer in every query set with num_unique_queries adjusted, one FRI query more / fewer, field modulus of another length, one commitment more / fewer, GKR proof of announced length, remainder of another size); every truncation offset (torn write); every single-bit flip (quick: the first 12 bases, thorough: all). Sampled: byte overwrites, trailing garbage, removed / duplicated / swapped components with and without fixing counters and length prefixes, blob growth / shrinkage, splices of two proofs, random fields, random strings, pairs of faults; context / options / trace-info fields of freshly generated proofs (AIR shape varies per run) set to neighbouring and boundary values; delivery by Proof::from_bytes or by Proof::read_from over ReadAdapter over a hostile-chunking simulated source; verification with matching or perturbed public inputs under three acceptance policies. options-cross (enumerated completely, also in the overflow-checking build): one honest proof per point of the grid trace length {8,16,32} x blowup {2,4,8} x folding {2,4,8,16} x remainder max degree {0,1,3,7} that has a well-formed FRI schedule, delivered with its blowup / folding / remainder option bytes set to every other valid combination (5 x 4 x 7), so that the verifier follows a layer schedule the proof was not made for. Each case runs in an isolated worker with an allocation meter. Non-trivial = a fault fired (all runs); distinct = distinct event-log digests.".into(),
         interleaving_measure: "distinct (base, fault, delivery mode, chunking) histories".into(),
         real: vec!["Proof / Context / TraceInfo / ProofOptions / Commitments / Queries / OodFrame / FriProof deserializers", "winter-verifier verify() incl. VerifierChannel, composer, FRI verifier, Merkle batch verification", "utils::ReadAdapter on the streamed deliveries"],
         stub: vec!["the byte source (SimRead)", "SimAir (the AIR handed to verify(); asserts nothing itself)"],
